@@ -21,7 +21,9 @@ META.update({
                   "waker queue => waker edge pending, a waiting connection on an un-paused server with a flagged worker has a registered listener "
                   "with an unreported edge or a back-off with armed timeout) and C05_no_strand_all (the same for EVERY script, worker faults included); "
                   "C05_commands_in_order + C05_last_command_wins (from any state: one handle_waker call leaves the pause flag = the fold of the "
-                  "queued Pause/Resume interests, i.e. the last command issued wins); C05_recovers_resume (Resume + one turn) and C05_recovers_backoff "
+                  "queued Pause/Resume interests, i.e. the last command issued wins); C05_server_forwards_in_order + _all_when_idle (server task, "
+                  "Model/SrvStop.v: the pause()/resume() calls reach the accept thread's queue in call order, each exactly once, none lost "
+                  "before a stop ends the command loop; tie: bld op Q, calls issued back to back); C05_recovers_resume (Resume + one turn) and C05_recovers_backoff "
                   "(+510 ms + two turns): the listener is registered, linked, deadline-free and its backlog empty whenever a worker is flagged; "
                   "C05_transient (accept with a pending aborted/reset/refused error EQUALS accept without it); C05_idempotent_* (Pause;Pause = "
                   "Pause, Pause while paused / Resume while running / the second of Resume;Resume are pure queue pops). All closed under the "
@@ -31,8 +33,7 @@ META.update({
                   "AlreadyExists/NotFound on double (de)registration, accept() never answering WouldBlock while clients are queued — the "
                   "nwb_op hypothesis, whose necessity is witnessed by C05_wouldblock_witness and replayed on the real loop) is the environment "
                   "model, validated only by the correspondence runs on this kernel; the blocking poll itself (that a 510 ms timeout makes the real "
-                  "thread come back) is the 10-line poll_with loop, mirrored by the Turn hook; real EMFILE is not provoked, the injected kind "
-                  "stands for it; the bounded-time claim is in virtual time. Trusted base as C02.",
+                  "thread come back) is the 10-line poll_with loop, mirrored by the Turn hook (the bld stream runs the real loop and a real EMFILE);  the bounded-time claim is in virtual time. Trusted base as C02.",
     "rule": "stream srv: model-guided random fault-free scripts with commands, injected transient/non-transient errors, direct accept-thread calls, "
             "yield schedules, a minority with Stop, listeners T/U/TU/TT/UT, settling epilogue (R T T +600 T T T); stream scen: every sequence of "
             "up to k building blocks {non-transient error, transient error, connect, Pause, Resume, turn, +250 ms, +510 ms, direct accept} on a "
